@@ -169,10 +169,35 @@ def real_frameseq(line):
     return ' '.join(out)
 
 
+def real_framefam(line):
+    """frames of a family of classes serialised one after the other: step = <parent>:<cls>:<id>:<payload hex> with parent
+    B (an instance of UbxFrame itself, class/id 0/0), U (a new class derived from UbxFrame) or j (a new class derived from
+    the class of step j, overriding CID) - what one class serialised must not depend on what another did before"""
+    p = line.split('|')
+    classes, out = [], []
+    try:
+        for step in p[1].split(';'):
+            par, c, i, h = step.split(':')
+            if par == 'B':
+                cls = UbxFrame
+            else:
+                base = UbxFrame if par == 'U' else classes[int(par)]
+                cls = type('Fam', (base,), {'CID': UbxCID(int(c), int(i))})
+            classes.append(cls)
+            f = cls()
+            f.data = bytearray(bytes.fromhex(h))
+            out.append(bytes(f.to_bytes()).hex())
+    except Exception as e:
+        out.append('EXC:' + exc_name(e))
+    return ' '.join(out)
+
+
 def real_frame(line):
     p = line.split('|')
     if p[0] == 'frameseq':
         return real_frameseq(line)
+    if p[0] == 'framefam':
+        return real_framefam(line)
     if p[0] == 'frame':
         cls_, id_, pl = int(p[1]), int(p[2]), bytes.fromhex(p[3])
     else:
@@ -193,6 +218,13 @@ def real_frame(line):
 def oracles_frame(line, real_out):
     p = line.split('|')
     what = 'to_bytes() = sync, class, id, 16-bit little-endian length, payload, Fletcher checksum; twice the same; frame unchanged'
+    if p[0] == 'framefam':
+        outs = real_out.split(' ')
+        steps = [st.split(':') for st in p[1].split(';')]
+        if len(outs) != len(steps):
+            return [{'prop': 'C01', 'ok': False, 'expected': f'{len(steps)} serialisations', 'observed': real_out[-200:], 'what': what}], []
+        return [], [{'line': f'wire|{0 if st[0] == "B" else st[1]}|{0 if st[0] == "B" else st[2]}|{st[3]}', 'expect': o, 'prop': 'C01',
+                     'what': what + ' (frame classes of one family serialised one after the other)'} for st, o in zip(steps, outs)]
     if p[0] == 'frameseq':
         outs = real_out.split(' ')
         steps = p[3].split(';')
@@ -222,6 +254,12 @@ def gen_frame(rng, n, profile):
         yield f'framegen|{rng.randrange(256)}|{rng.randrange(256)}|{ln}|{rng.randrange(1 << 30)}|{rng.choice([0, 0, 1, 2])}'
     for c, i in [(0, 0), (255, 255), (0xb5, 0x62)]:
         yield f'frame|{c}|{i}|'
+    for _ in range(max(30, n // 2)):
+        steps = []
+        for k in range(rng.randrange(2, 6)):
+            par = rng.choice(['B', 'U', 'U'] + [str(j) for j in range(k) if steps[j][0] != 'B'])
+            steps.append(f'{par}:{rng.randrange(256)}:{rng.randrange(256)}:{bytes(rng.randrange(256) for _ in range(rng.choice([0, 1, 4, 12]))).hex()}')
+        yield 'framefam|' + ';'.join(steps)
     for _ in range(max(40, n)):
         steps = []
         pl = bytes(rng.randrange(256) for _ in range(rng.choice([0, 1, 2, 12, 40, 255, 256])))
@@ -490,12 +528,22 @@ def parse_value(s):
 
 
 def real_assign(line):
-    _, name, h, field, val = line.split('|')
+    """mode (optional 6th field): A assign through frame.f.<name> (default), G through frame.get(name).value;
+    a leading P encodes the frame once BEFORE the edit, a trailing R reads str(frame) before encoding"""
+    parts = line.split('|')
+    _, name, h, field, val = parts[:5]
+    mode = parts[5] if len(parts) > 5 else 'A'
     pl = bytes.fromhex(h)
     try:
         cls = find_class(name)
         f = cls.construct(bytearray(pl))
-        setattr(f.f, field, parse_value(val))
+        if mode.startswith('P'):
+            f.pack()
+            f.to_bytes()
+        if 'G' in mode:
+            f.get(field).value = parse_value(val)
+        else:
+            setattr(f.f, field, parse_value(val))
         if getattr(f.f, field) != parse_value(val):
             return 'not-assigned'
     except Exception as e:
@@ -536,7 +584,7 @@ def in_range(kind, w, v):
 
 
 def oracles_assign(line, real_out):
-    _, name, h, field, val = line.split('|')
+    _, name, h, field, val = line.split('|')[:5]
     pl = bytes.fromhex(h)
     if not wellformed(name, pl):
         return [], []
@@ -588,7 +636,7 @@ def gen_assign(rng, n, profile):
             for fname, k, w in picks:
                 vals = boundary_values(rng, k, w)
                 for v in (vals if n >= 30 else rng.sample(vals, 4)):
-                    yield f'assign|{name}|{pl.hex()}|{fname}|{v}'
+                    yield f'assign|{name}|{pl.hex()}|{fname}|{v}|{rng.choice(["A", "A", "G", "PA", "PG", "PG"])}'
 
 
 # =====================================================================================================
@@ -933,13 +981,17 @@ def gen_valset(rng, n, profile):
 # =====================================================================================================
 def real_gnss(line):
     from ubxlib.ubx_cfg_gnss import UbxCfgGnss
-    _, op, sysn, bl = line.split('|')
+    _, op, sysn, bl = line.split('|')[:4]
+    prepack = line.endswith('|P')
     blocks = [tuple(map(int, e.split(':'))) for e in bl.split(',')] if bl else []
     pl = bytearray([0, 32, 32, len(blocks)])
     for i, fl in blocks:
         pl += bytes([i, 0, 0, 0]) + struct.pack('<I', fl)
     try:
         f = UbxCfgGnss.construct(pl)
+        if prepack:                 # the frame has been encoded (sent) once before the helper is used
+            f.pack()
+            f.to_bytes()
         {'enable': lambda: f.enable_gnss(int(sysn)), 'disable': lambda: f.disable_gnss(int(sysn)),
          'gps_glonass': f.gps_glonass, 'gps_galileo_beidou': f.gps_galileo_beidou}[op]()
         f.pack()
@@ -955,7 +1007,7 @@ PRESETS = {'gps_glonass': ([0, 1, 6], [2, 3, 4, 5]), 'gps_galileo_beidou': ([0, 
 
 
 def oracles_gnss(line, real_out):
-    _, op, sysn, bl = line.split('|')
+    _, op, sysn, bl = line.split('|')[:4]
     blocks = [list(map(int, e.split(':'))) for e in bl.split(',')] if bl else []
     exp = [list(b) for b in blocks]
 
@@ -992,7 +1044,7 @@ def gen_gnss(rng, n, profile):
         ids = [rng.randrange(8) for _ in range(rng.randrange(0, 7))] if rng.random() < .3 else rng.sample(range(8), rng.randrange(0, 9))
         bl = ','.join(f'{i}:{rng.choice(flags + [rng.randrange(1 << 32)])}' for i in ids)
         op = rng.choice(['enable', 'disable', 'gps_glonass', 'gps_galileo_beidou'])
-        yield f'gnss|{op}|{rng.randrange(8)}|{bl}'
+        yield f'gnss|{op}|{rng.randrange(8)}|{bl}' + rng.choice(['', '', '|P'])
 
 
 def real_helper(line):
